@@ -1022,10 +1022,12 @@ func pre(n *pnode, dst reflect.Value) {
 				cnt++
 			}
 		}
-		s := reflect.MakeSlice(n.t.rt, cnt, cnt)
-		for i, k := range n.kids {
+		s := reflect.MakeSlice(n.t.rt, cnt, cnt) // non-nil also when empty
+		i := 0
+		for _, k := range n.kids {
 			if k.inPre {
 				pre(k, s.Index(i))
+				i++
 			}
 		}
 		dst.Set(s)
@@ -1127,15 +1129,39 @@ func apply(n *pnode, dst reflect.Value) {
 		if !n.inCfg {
 			return
 		}
-		old := dst
-		s := reflect.MakeSlice(n.t.rt, len(n.kids), len(n.kids))
-		if !old.IsNil() {
-			reflect.Copy(s, old)
-		}
-		for i, k := range n.kids {
+		var cfgKids []*pnode
+		for _, k := range n.kids {
 			if k.inCfg {
-				apply(k, s.Index(i))
+				cfgKids = append(cfgKids, k)
 			}
+		}
+		nc, no := len(cfgKids), 0
+		if !dst.IsNil() {
+			no = dst.Len()
+		}
+		var s reflect.Value
+		at := 0
+		switch sliceMode(n.mode) {
+		case "append":
+			s = reflect.MakeSlice(n.t.rt, no+nc, no+nc)
+			reflect.Copy(s, dst)
+			at = no
+		case "prepend":
+			s = reflect.MakeSlice(n.t.rt, no+nc, no+nc)
+			reflect.Copy(s.Slice(nc, no+nc), dst)
+		case "replace":
+			s = reflect.MakeSlice(n.t.rt, nc, nc)
+			reflect.Copy(s, dst) // Unpack merges into copies of the old elements
+		default:
+			l := nc
+			if no > l {
+				l = no
+			}
+			s = reflect.MakeSlice(n.t.rt, l, l)
+			reflect.Copy(s, dst)
+		}
+		for j, k := range cfgKids {
+			apply(k, s.Index(at+j))
 		}
 		dst.Set(s)
 	case n.t.k == kArray:
@@ -1191,22 +1217,66 @@ func (n *pnode) source() string {
 	return "absent"
 }
 
-// sources lists position=source for every leaf, for keys and witnesses.
+// collState describes how a slice or map position is given: merge mode,
+// configuration side (absent, null, empty, set), pre-filled side.
+func collState(n *pnode) string {
+	nc, np := 0, 0
+	for _, k := range n.kids {
+		if k.inCfg {
+			nc++
+		}
+		if k.inPre {
+			np++
+		}
+	}
+	c := "cfg-set"
+	switch {
+	case !n.inCfg:
+		c = "cfg-absent"
+	case n.cfgNull:
+		c = "cfg-null"
+	case nc == 0:
+		c = "cfg-empty"
+	case nc < np:
+		c = "cfg-shorter"
+	}
+	p := "pre-filled"
+	switch {
+	case !n.inPre:
+		p = "pre-nil"
+	case np == 0:
+		p = "pre-empty"
+	}
+	m := "map"
+	if n.t.k == kSlice {
+		m = "slice:" + sliceMode(n.mode)
+	}
+	return m + ":" + c + ":" + p
+}
+
+// sources lists position=source for every leaf and the state of every slice
+// and map, for keys and witnesses.
 func sources(top *pnode) string {
 	var l []string
 	top.each(func(n *pnode) {
 		if n.parent == nil {
 			return
 		}
+		if n.t.k == kSlice || n.t.k == kMap {
+			l = append(l, n.rpath+"#"+collState(n))
+		}
 		if len(n.kids) == 0 {
 			s := n.source()
 			if n.inCfg && n.inPre {
 				s += "+default"
 			}
-			l = append(l, n.path+"="+s)
+			l = append(l, n.rpath+"="+s)
 		}
 	})
 	sort.Strings(l)
+	if top.global != "" {
+		l = append([]string{"global=" + top.global}, l...)
+	}
 	return strings.Join(l, " ")
 }
 
